@@ -472,6 +472,8 @@ def run(repo, res, tier):
     mpt_rules(repo, res)
     graph_walkers(repo, res)
     cycseed(repo, res)
+    from . import c11
+    c11.dom_get_specializations(repo, res)  # unknown-shell / non-command / duplicate checks precede the target-shell filter
     common.run_traversals(repo, res, only={"check::do_check_subword_spaces", "check::do_get_nonterm_refs", "check::expr_get_head", "check::expr_get_tail"}, rp=False)
     res.floor("GUARD", res.count("GUARD"), 12)
     res.floor("HANDLER", res.count("HANDLER"), 36)
